@@ -51,20 +51,24 @@ def total(data):
     if json.loads(text)["severity"] != res.severity.name:
         return False
     _ = res.to_string(), res.detailed_results(), bool(res)
-    # the checked loader carries the same report
+    # the checked loader carries the same report, at every accepted-severity threshold at which it refuses
     saved = pickle.loads
     pickle.loads = lambda d, *a, **k: ("TOKEN", d)
     try:
-        try:
-            loader.load(data)
-            raised = None
-        except UnsafeFileError as e:
-            raised = e
+        for thr in list(Severity):
+            try:
+                loader.load(data, max_acceptable_severity=thr)
+                raised = None
+            except UnsafeFileError as e:
+                raised = e
+            if res.severity <= thr:
+                if raised is not None:
+                    return False
+            elif raised is None or raised.info != rep or not isinstance(str(raised), str):
+                return False
     finally:
         pickle.loads = saved
-    if res.severity == Severity.LIKELY_SAFE:
-        return raised is None
-    return raised is not None and raised.info == rep and isinstance(str(raised), str)
+    return True
 
 
 def make_lemma(shard, nshards):
@@ -98,11 +102,19 @@ SPECIAL = [b"N.", b"K\x01.", b"\x80\x04\x80\x04N.", b"N\x80\x04.", b"\x80\x02\x8
            b"c__builtin__\neval\n(c__builtin__\neval\n(S'1'\ntRtR.", b"(S'x'\ni__builtin__\nexec\n.", b"ceval\neval\n.", b"cx\neval\ncx\neval\n\x86."]
 
 
+# a duplicate / misplaced PROTO at every opcode position 2..40 (the rules render the position as an English ordinal)
+for _pos in range(2, 41):
+    SPECIAL.append(b"\x80\x04" + b"N0" * ((_pos - 2) // 2) + (b"N" if (_pos - 2) % 2 else b"") + b"\x80\x04" + (b"0" if (_pos - 2) % 2 else b"") + b"N.")
+    SPECIAL.append(b"\x80\x02" + b"N0" * ((_pos - 2) // 2) + (b"N" if (_pos - 2) % 2 else b"") + b"\x80\x03" + (b"0" if (_pos - 2) % 2 else b"") + b"N.")
+
+
 def special(i: int) -> bool:
     """
-    pre: 0 <= i < 18
+    pre: 0 <= i < 128
     post: _
     """
+    if i >= len(SPECIAL):
+        return True
     i = pin(i, 0, len(SPECIAL) - 1)
     with native():
         return total(SPECIAL[i])
@@ -122,5 +134,5 @@ def lemmas(tier):
                        doc={"F": ["module from shard %d/%d of %d modules" % (s, ns, len(C_MODS_T[0])), "attribute from %d harvested names (eval, exec, open, load, getitem, ... arrive by themselves)" % len(ATTRS),
                                   "resolve in GLOBAL/STACK_GLOBAL/INST", "call in none/REDUCE/OBJ", "second import: none / same attribute from another module / benign call"],
                             "bound": "single gadget (+ optional second import)"}))
-    L.append(Lemma("special", special, timeout=120, dry=[{"i": 5}], doc={"F": ["%d hand-made programs (duplicate/misplaced PROTO, NEWOBJ_EX, BINPERSID, sets, nested evals, ...)" % len(SPECIAL)]}))
+    L.append(Lemma("special", special, timeout=120, dry=[{"i": 5}], doc={"F": ["%d programs: hand-made (NEWOBJ_EX, BINPERSID, sets, nested evals, ...) and a duplicate / version-changing PROTO at every opcode position 2..40" % len(SPECIAL)]}))
     return L
